@@ -26,3 +26,14 @@ Print Assumptions C19_in_send_order.
 Theorem C19_redelivery_until_ack : forall t l l' pos x, first_from t l 0 pos = Some x -> first_from t (l ++ l') 0 pos = Some x.
 Proof. intros t l l' pos x H. exact (first_from_app t l l' 0 pos x H). Qed.
 Print Assumptions C19_redelivery_until_ack.
+
+(* ON A SINGLE TOPIC the refinement needs no condition on names and options: for EVERY operation sequence whose Sends and
+   receivers are all on one topic — receiver names and StreamFromLatest settings chosen freely per receiver, a name used with and
+   without the option included — memstreamer answers as the reference stream does. There the Recv loop never skips an event, so
+   a position is stored only by an acknowledgement or by StreamFromLatest on a name that has none: READING IS NOT STORING
+   (proofs/StreamsSingle.v; with several topics memstreamer also commits a position while skipping foreign events, which is
+   why C19_refines asks a name to keep one option) *)
+From WF Require Import proofs.StreamsSingle.
+Theorem C19_refines_single_topic : forall t ops, single_topic t ops = true -> mmem_run mstream0 ops = rref_run rstream0 ops.
+Proof. exact streams_refine_single_from_empty. Qed.
+Print Assumptions C19_refines_single_topic.
